@@ -11,7 +11,7 @@ claimed = {
          "bounds per harness in evidence; ideal-AEAD model key, invertible zstd model, checksum hash model; archiver/packer threads, file system, metadata are outside the claim", "DESIGN 4/C01"),
  "C05": ("per-pack kernel only: if check_pack returns Ok without recording a finding then the file hashes to the indexed pack id, the trailer length and the decrypted trailer (independent reference decoder) equal what the index records, and every blob read where the index places it decrypts to content whose hash is its id; with a key that rejects, check_pack never comes back clean",
          "one pack shape (two uncompressed 34-byte blobs, 178 symbolic bytes); AEAD verdict is a harness constant; checksum model for SHA-256; binrw decoders replaced by a reference decoder; which packs are read, the tree walk and the index-vs-listing comparison (threads, B-trees) are outside", "DESIGN 11.3"),
- "C06": ("one step of the real rabin ChunkIter::next from a mid-stream iterator state (inductive over chunks) is decided for all stream bytes within small shapes: no panic, chunk non-empty / within max / at least min unless the stream ends / equal to the next unread bytes, remainder preserved; relational: the cut does not depend on the look-ahead split nor on the hash state left by the previous chunk (2-byte-window instance); degenerate parameter triples are refused; fixed-size chunker partition under arbitrary short reads",
+ "C06": ("one step of the real rabin ChunkIter::next from a mid-stream iterator state (inductive over chunks) is decided for all stream bytes within small shapes: no panic, chunk non-empty / within max / at least min unless the stream ends / equal to the next unread bytes, remainder preserved; relational: the cut does not depend on the look-ahead split nor on the hash state left by the previous chunk (2-byte- and 8-byte-window instances); degenerate parameter triples are refused; fixed-size chunker partition under arbitrary short reads",
          "five concrete parameter triples with concrete look-ahead/stream lengths (all bytes symbolic); std read_to_end replaced by its contract model; equality of the rolling fingerprint with the mathematical Rabin fingerprint and the production 64-byte-window relational harnesses are experimental (do not finish) and outside the claim", "DESIGN 4/C06, 11.3"),
  "C04": ("framing layer only: every byte string written through the real DecryptBackend is key.encrypt_data output and its id is the hash of exactly those bytes; a decryption failure or a wrong recorded length is an error on every read path (no fallback to raw bytes); cryptographic strength is not decidable by a bounded solver",
          "model keys (format-checking AEAD; harness-controlled MAC verdict); zstd/hash stubs; tamper detection with a content-sensitive model MAC is experimental (> 30 GB); AES/Poly1305/scrypt, keys, passwords outside", "DESIGN 4/C04, 11.3"),
